@@ -119,7 +119,11 @@ begin
   kv = "k"
   Resp.MV = Req.Tab["k"] + Req.Tab[kv]
   kn = Req.KeyN
-  Resp.MV2 = Req.ITab[kn]
+  msum = 0
+  for mi = 0; mi < 40; mi += 1 {
+    msum = msum + Req.ITab[kn]
+  }
+  Resp.MV2 = msum
   Resp.Out3 = Req.Id
   return Req.Id
 end
@@ -582,8 +586,8 @@ func (s *Storm) checkIdentity(d *done, when string) {
 		if _, ran := d.res["q3"]; ran && d.resp.Tw != 2*id {
 			s.find("iso", m+"/foreign-method-receiver", fmt.Sprintf("%s: request %d: Req.Twice() returned %d, on its own object it is %d", m, id, d.resp.Tw, 2*id), map[string]interface{}{"call": d.call})
 		}
-		if _, ran := d.res["q3"]; ran && d.resp.MV2 != id {
-			s.find("iso", m+"/foreign-map-key", fmt.Sprintf("%s: request %d: Req.ITab[kn] with its own kn=%d gave %d, its own map holds %d there", m, id, id%7, d.resp.MV2, id), map[string]interface{}{"call": d.call})
+		if _, ran := d.res["q3"]; ran && d.resp.MV2 != 40*id {
+			s.find("iso", m+"/foreign-map-key", fmt.Sprintf("%s: request %d: 40 reads of Req.ITab[kn] with its own kn=%d summed to %d, its own map gives %d", m, id, id%7, d.resp.MV2, 40*id), map[string]interface{}{"call": d.call})
 		}
 		if _, ran := d.res["q3"]; ran && d.resp.MV != 2*id {
 			s.find("iso", m+"/foreign-map-element", fmt.Sprintf("%s: request %d: Req.Tab[\"k\"] + Req.Tab[kv] gave %d, its own map gives %d", m, id, d.resp.MV, 2*id), map[string]interface{}{"call": d.call})
